@@ -76,10 +76,11 @@ pub fn run(ctx: &mut Ctx) -> bool {
         "C07" => {
             ctx.level = "fault_enumeration".into();
             ctx.max_shrink_iters = 48;
-            ctx.rule = "Fault = expiry of the time allowance at the k-th consultation of the clock (virtual clock hook). For each generated game-like position (corpus walks, endgames with few men so iterations 4-6 and the null-move branch are inside the bound, with and without repetition history built by the engine's own `position` handler) a reference search with a large allowance is run, then EVERY expiry point k = 0..=K and a few sampled deeper ones. Oracle per run: no panic; repetition table restored (key->count, absent == 0); at least one board sent; every sent board is the oracle's position after a legal root move; with no completed evaluation exactly one board, first in the move ordering; lines and moves are a prefix of the reference run's (a larger allowance only extends), prefix length monotone in k; no sentinel in a score. A black-box family runs timed searches (20-60 ms) on the real binary and counts sessions whose stderr shows a panic (the two-thread composition; statistical rule: >= 3 sessions, confirmed by a second batch). evaluations = searches executed. Non-trivial = expiry strictly inside the search (0 < k < last consultation); distinct by (game, k).".into();
+            ctx.rule = "Fault = expiry of the time allowance at the k-th consultation of the clock (virtual clock hook). For each generated game-like position (corpus walks, endgames with few men so iterations 4-6 and the null-move branch are inside the bound, with and without repetition history built by the engine's own `position` handler) a reference search with a large allowance is run, then EVERY expiry point k = 0..=K and a few sampled deeper ones. Oracle per run: no panic; repetition table restored (key->count, absent == 0); at least one board sent; every sent board is the oracle's position after a legal root move; with no completed evaluation exactly one board, first in the move ordering; lines and moves are a prefix of the reference run's (a larger allowance only extends), prefix length monotone in k; no sentinel in a score. A black-box family gives the real binary an allowance of 2^64 ms and more (beyond what the hook can express) and requires the improvements of the first half second to be a prefix of a direct search's. Another black-box family runs timed searches (20-60 ms) on the real binary and counts sessions whose stderr shows a panic (the two-thread composition; statistical rule: >= 3 sessions, confirmed by a second batch). evaluations = searches executed. Non-trivial = expiry strictly inside the search (0 < k < last consultation); distinct by (game, k).".into();
             ctx.assumptions = vec!["the virtual clock replaces utils::out_of_time's wall clock reading (cfg feature verif); it is monotone like the real clock".into(), "OS scheduling between the two threads of the real binary is not part of this check (see C03/C08)".into()];
             search::run_expiry(ctx, search::Mode::C07);
             blackbox::run_c07_panic_rate(ctx);
+            blackbox::run_c07_huge_allowance(ctx);
         }
         "C18" => {
             ctx.max_shrink_iters = 48;
@@ -174,6 +175,7 @@ pub fn replay(prop: &str, _family: &str, case: &Value) -> CaseResult {
         "C11" => searchsem::replay_c11(case),
         "C12" => searchsem::replay_c12(case),
         "C07" if case.get("stderr_panic_rate").is_some() => blackbox::replay_c07_panic_rate(case),
+        "C07" if case.get("huge_allowance").is_some() => blackbox::replay_c07_huge(case),
         "C07" => search::replay_expiry(case, search::Mode::C07),
         "C18" if case.get("blackbox").is_some() => blackbox::replay_go_session(case, true),
         "C18" => search::replay_expiry(case, search::Mode::C18),
